@@ -9,6 +9,7 @@ import (
 	"encoding/json"
 	"fmt"
 	"math/rand"
+	"sync/atomic"
 	"time"
 
 	sdk "github.com/cosmos/cosmos-sdk/types"
@@ -17,15 +18,15 @@ import (
 )
 
 type Step struct {
-	Kind    string `json:"kind"` // msg | block | mod | modsvc
-	MsgType string `json:"msg_type,omitempty"`
-	MsgB64  string `json:"msg_b64,omitempty"`
-	Desc    string `json:"desc,omitempty"`
-	Note    string `json:"note,omitempty"`
-	DtNs    int64  `json:"dt_ns,omitempty"`
-	Mod     *ModOp `json:"mod,omitempty"`
-	Behaviour int  `json:"behaviour,omitempty"`
-	SameTx  bool   `json:"same_tx,omitempty"` // next message of the previous message's transaction
+	Kind      string `json:"kind"` // msg | block | mod | modsvc
+	MsgType   string `json:"msg_type,omitempty"`
+	MsgB64    string `json:"msg_b64,omitempty"`
+	Desc      string `json:"desc,omitempty"`
+	Note      string `json:"note,omitempty"`
+	DtNs      int64  `json:"dt_ns,omitempty"`
+	Mod       *ModOp `json:"mod,omitempty"`
+	Behaviour int    `json:"behaviour,omitempty"`
+	SameTx    bool   `json:"same_tx,omitempty"` // next message of the previous message's transaction
 }
 
 type FundRec struct {
@@ -45,6 +46,7 @@ type HistorySetup struct {
 	KillOthers    bool      `json:"state_callback_kills_others,omitempty"`
 	Ghost         bool      `json:"ghost_module_context,omitempty"`
 	BigFunds      []FundRec `json:"big_funds,omitempty"` // amounts beyond int64, funded before the first snapshot
+	StartTimeNs   int64     `json:"start_time_unix_ns,omitempty"`
 }
 
 type History struct {
@@ -64,14 +66,14 @@ type Violation struct {
 }
 
 type Run struct {
-	w    *World
-	hist *History
-	pre  *Snap
-	mon  *Mon
-	rng  *rand.Rand
-	stop bool
-	lastRes StepResult
-	digests []string
+	w        *World
+	hist     *History
+	pre      *Snap
+	mon      *Mon
+	rng      *rand.Rand
+	stop     bool
+	lastRes  StepResult
+	digests  []string
 	maxSteps int
 }
 
@@ -226,6 +228,12 @@ func (r *Run) InstallGhost(consumer sdk.AccAddress, provider sdk.AccAddress) str
 	return hexs(id)
 }
 
+// SetStartTime sets the block time of the first block (default: genesisTime).
+func (r *Run) SetStartTime(t time.Time) {
+	r.w.now = t
+	r.hist.Setup.StartTimeNs = t.UnixNano()
+}
+
 func (r *Run) SetViaApp(v bool) {
 	r.w.viaApp = v
 	r.hist.Setup.ViaApp = v
@@ -257,7 +265,17 @@ func (r *Run) after(st Step, msg sdk.Msg, res StepResult) {
 
 func (r *Run) Msg(msg sdk.Msg, note string) StepResult { return r.MsgTx(msg, note, false) }
 
+// watchdogFired is set by the wall-clock watchdog of a run: histories stop executing
+// steps (the steps become no-ops) so that what was observed so far can still be reported.
+var watchdogFired int32
+
+func expired() bool { return atomic.LoadInt32(&watchdogFired) != 0 }
+
 func (r *Run) MsgTx(msg sdk.Msg, note string, sameTx bool) StepResult {
+	if expired() {
+		r.stop = true
+		return StepResult{}
+	}
 	typ, b64 := encodeMsg(msg)
 	st := Step{Kind: "msg", MsgType: typ, MsgB64: b64, Desc: describeMsg(msg), Note: note, SameTx: sameTx}
 	res := r.w.DeliverMsgTx(msg, sameTx)
@@ -266,6 +284,10 @@ func (r *Run) MsgTx(msg sdk.Msg, note string, sameTx bool) StepResult {
 }
 
 func (r *Run) Block(dt time.Duration) StepResult {
+	if expired() {
+		r.stop = true
+		return StepResult{}
+	}
 	st := Step{Kind: "block", DtNs: int64(dt), Desc: fmt.Sprintf("end-block h=%d then +%s", r.w.height, dt)}
 	res := r.w.EndBlock(dt)
 	r.after(st, nil, res)
@@ -279,6 +301,10 @@ func (r *Run) Blocks(n int) {
 }
 
 func (r *Run) Mod(op ModOp, note string) StepResult {
+	if expired() {
+		r.stop = true
+		return StepResult{}
+	}
 	st := Step{Kind: "mod", Mod: &op, Note: note, Desc: fmt.Sprintf("module-op %s ctx=%.16s", op.Op, op.CtxID)}
 	res := r.w.DeliverModOp(op)
 	r.after(st, nil, res)
@@ -286,6 +312,10 @@ func (r *Run) Mod(op ModOp, note string) StepResult {
 }
 
 func (r *Run) Restart() StepResult {
+	if expired() {
+		r.stop = true
+		return StepResult{}
+	}
 	st := Step{Kind: "restart", Desc: "zero-height restart: prepare, export, wipe the module store, import"}
 	res := r.w.Restart()
 	r.after(st, nil, res)
@@ -335,6 +365,9 @@ func Replay(a *App, h *History, mon *Mon) *Run {
 	r.SetStateCbKill(h.Setup.StateCbKill)
 	r.SetViaApp(h.Setup.ViaApp)
 	r.SetKillOthers(h.Setup.KillOthers)
+	if h.Setup.StartTimeNs != 0 {
+		r.SetStartTime(time.Unix(0, h.Setup.StartTimeNs).UTC())
+	}
 	if h.Setup.Ghost {
 		act := MakeActors()
 		r.InstallGhost(act.Consumers[0], act.SignProv[0])
